@@ -194,7 +194,11 @@ func (k *c38) check(o *stepObs) {
 		_, had := T.cells[c.cell]
 		if had {
 			x.label("delete-attr:was-set")
-			if v, still := post.els[T.m].cells[c.cell]; still {
+			if v, still := post.els[T.m].cells[c.cell]; still && c.cell == "shape" && v == "text" {
+				// a block-string label (|md ...|) makes the object a text shape by itself: there is no
+				// shape attribute to remove and the shape stays
+				x.label("gray:shape-implied-by-block-label")
+			} else if still {
 				x.fail(o.step, "delete-attr:not-reset:"+cellClass(c.cell)+suffix, "%s: %s is still %q\n%s", c, c.cell, v, o.ctx())
 				return
 			}
